@@ -61,6 +61,19 @@ def kindOfJ (j : Json) : R Kind :=
   | .arr #[.str "nop"] => pure .nop
   | _ => throw s!"bad kind {j.compress}"
 
+def kindJ : Kind → Json
+  | .assign lhs sub rhs loops => jarr [jstr "assign", jstr lhs, (match sub with | some e => exprJ e | none => .null),
+      exprJ rhs, jarr (loops.map fun (i, lo, hi) => jarr [jstr i, exprJ lo, exprJ hi])]
+  | .callAssign lhs f args kw => jarr [jstr "call", jarr (lhs.map jstr), jstr f, jarr (args.map exprJ),
+      jarr (kw.map fun (k, e) => jarr [jstr k, exprJ e])]
+  | .yield e t tid comp => jarr [jstr "yield", exprJ e, exprJ t, jstr tid, jstr comp]
+  | .raise err => jarr [jstr "raise", jstr err]
+  | .fail => jarr [jstr "fail"]
+  | .switch p => jarr [jstr "switch", jstr p]
+  | .nop => jarr [jstr "nop"]
+
+def stmtJ (s : Stmt) : Json := jobj [("cond", exprJ s.cond), ("kind", kindJ s.kind)]
+
 def stmtOfJ (j : Json) : R Stmt := do
   pure { cond := ← exprOf (← field j "cond"), kind := ← kindOfJ (← field j "kind") }
 
